@@ -909,6 +909,14 @@ func decisionTable(fn *ssa.Function) string {
 					return "nestable(" + name + ")"
 				}
 			}
+			// a helper of the package asked about the verb list and a constant name: is the last verb S?
+			if sc := x.Call.StaticCallee(); sc != nil && sc.Pkg == fn.Pkg && len(x.Call.Args) == 2 {
+				if _, isList := x.Call.Args[0].Type().Underlying().(*types.Slice); isList {
+					if s, ok := constString(x.Call.Args[1]); ok {
+						return "lastverb==" + s
+					}
+				}
+			}
 		case *ssa.BinOp:
 			if s, ok := constString(x.Y); ok && (x.Op == token.EQL || x.Op == token.NEQ) {
 				lhs := "lastverb"
@@ -925,8 +933,9 @@ func decisionTable(fn *ssa.Function) string {
 		return ""
 	}
 	var trues [][]lit
-	var walk func(b *ssa.BasicBlock, path []lit, seen map[*ssa.BasicBlock]bool)
-	walk = func(b *ssa.BasicBlock, path []lit, seen map[*ssa.BasicBlock]bool) {
+	var walkFrom func(b, from *ssa.BasicBlock, path []lit, seen map[*ssa.BasicBlock]bool)
+	walk := func(b *ssa.BasicBlock, path []lit, seen map[*ssa.BasicBlock]bool) { walkFrom(b, nil, path, seen) }
+	walkFrom = func(b, from *ssa.BasicBlock, path []lit, seen map[*ssa.BasicBlock]bool) {
 		if seen[b] {
 			return
 		}
@@ -935,10 +944,31 @@ func decisionTable(fn *ssa.Function) string {
 			seen2[k] = true
 		}
 		seen2[b] = true
+		walk := func(nb *ssa.BasicBlock, p []lit, sn map[*ssa.BasicBlock]bool) { walkFrom(nb, b, p, sn) }
 		switch x := b.Instrs[len(b.Instrs)-1].(type) {
 		case *ssa.Return:
-			if v, ok := constBool(x.Results[0]); ok && v {
-				trues = append(trues, append([]lit{}, path...))
+			res := x.Results[0]
+			// return a && b: the value is a phi of the short-circuit; take the edge this path came by
+			if ph, ok := res.(*ssa.Phi); ok && ph.Block() == b && from != nil {
+				for i, p := range b.Preds {
+					if p == from {
+						res = ph.Edges[i]
+					}
+				}
+			}
+			if v, ok := constBool(res); ok {
+				if v {
+					trues = append(trues, append([]lit{}, path...))
+				}
+			} else {
+				cond, pol := stripNot(res, true)
+				if name := atomName(cond); name != "" {
+					neg := false
+					if strings.HasPrefix(name, "!") {
+						name, neg = name[1:], true
+					}
+					trues = append(trues, append(append([]lit{}, path...), lit{name, pol != neg}))
+				}
 			}
 		case *ssa.Jump:
 			walk(b.Succs[0], path, seen2)
